@@ -15,7 +15,7 @@ def mk(pid, thms, rule, text, n=1600, tn=30000):
                              "a failure inside a known class is excused only if the implementation's output equals the mirror model's prediction of that defect"])
 GEN = ("generated base modules (0-5 imports of all five kinds interleaved, 1-4 local functions, globals incl. `global.get`/`ref.func` initialisers, 0-2 memories, exports, start, "
        "function-list and expression element segments, active data segments with constant and global.get offsets) and histories of 0-7 edits (add local/import, delete, local->import, "
-       "import->local with built bodies that carry references, iterator-level add_global, add/delete export, add_data) using the ids the API really returned; references in original, built and injected code; ")
+       "import->local with built bodies that carry references, iterator-level add_global, add/delete export, add_data) using the ids the API really returned; references in original, built and injected code (injected at the start of a probe function and, in half of the cases, in front of its final `end`); ")
 PROPS = {
  "C06": mk("C06", ["C06_reorganise_closed_form", "C06_index_space_closed_form", "C06_mapping_position", "C06_mapping_injective", "C06_mapping_absent", "C06_function_operator_tables_exact", "C06_wf_is_an_invariant_of_every_edit", "C06_wf_holds_of_every_base_module", "C06_binding_after_any_history", "C06_binding_on_the_emitted_module"],
            GEN + "non-trivial = history non-empty and at least one reference site",
